@@ -586,7 +586,7 @@ func (m *Machine) deepEqual(fr *frame, t types.Type, a, b Value, depth int) *smt
 		return r
 	case *types.Slice:
 		sa, sb := a.(Slice), b.(Slice)
-		if (sa.A == nil) != (sb.A == nil) {
+		if (sa.A == nil) != (sb.A == nil) && !(m.env["nilEqEmpty"] == true) {
 			return c.False
 		}
 		if sa.Len != sb.Len {
